@@ -315,15 +315,31 @@ class Inliner:
     def _as_expression(self, callee: FuncInfo) -> Optional[ast.AST]:
         """callee == (asserts / single-assignment temporaries)* return E  ->  E with the temporaries substituted"""
         env: Dict[str, ast.AST] = {}
+        raw: Dict[str, ast.AST] = {}
         body = body_without_docstring(callee.node)
         for i, st in enumerate(body):
             if isinstance(st, ast.Assert):
                 continue
             if isinstance(st, ast.Return) and i == len(body) - 1 and st.value is not None:
+                # a temporary whose value has effects (a call that may raise, consume an iterator, record something) must be
+                # evaluated exactly once and in the order written: substitution is the function only when every such
+                # temporary is read exactly once, and in the order in which the temporaries were assigned
+                impure = [k for k in raw if not self._pure(env[k])]  # (its own value, or a temporary it is computed from)
+                roots = [k for k in raw if not self._pure(raw[k])]
+                uses: Dict[str, int] = {k: 0 for k in raw}
+                for k, v in list(raw.items()) + [("<return>", st.value)]:
+                    for x in ast.walk(v):
+                        if isinstance(x, ast.Name) and isinstance(x.ctx, ast.Load) and x.id in uses:
+                            uses[x.id] += 1
+                if any(uses[k] != 1 for k in impure):
+                    return None
+                if len(roots) > 1:
+                    return None  # (the order of two effects is not worth reasoning about: the function is evaluated as written)
                 return _Subst(env, {}).visit(copy.deepcopy(st.value))
             if isinstance(st, (ast.Assign, ast.AnnAssign)):
                 t = st.targets[0] if isinstance(st, ast.Assign) and len(st.targets) == 1 else (st.target if isinstance(st, ast.AnnAssign) else None)
                 if isinstance(t, ast.Name) and st.value is not None and t.id not in env and t.id not in [a.arg for a in callee.node.args.args]:
+                    raw[t.id] = st.value
                     env[t.id] = _Subst(env, {}).visit(copy.deepcopy(st.value))
                     continue
             return None
